@@ -56,6 +56,20 @@ class MechDriver(Harness):
             line = "-" + ",".join(["CKM_" + m0] + others[:1])
         elif kind == "neg_out":
             line = "-" + ",".join(others[:2])
+        # names this build does not know are ignored (softhsm2.conf(5)) wherever they stand: none / first / in the
+        # middle / last, in turn
+        self.nconf = getattr(self, "nconf", 0) + 1
+        if kind != "ALL":
+            neg, names = line.startswith("-"), line.lstrip("-").split(",")
+            unk, where = ["CKM_GOSTR3411", "CKM_NO_SUCH_MECHANISM"][self.nconf % 2], self.nconf % 4
+            if where == 1:
+                names.insert(0, unk)
+            elif where == 2:
+                names.insert(1, unk)
+            elif where == 3:
+                names.append(unk)
+            line = ("-" if neg else "") + ",".join(names)
+        self.confline = line
         if self.up:
             self.p.finalize()
             self.up = False
@@ -358,7 +372,7 @@ class MechDriver(Harness):
         if name == "MConfigure":
             self.conf_kind = a[0]
             rv = self.configure(a[0], a[1])
-            ev.update(kind=a[0], m0=a[1])
+            ev.update(kind=a[0], m0=a[1], line=self.confline)
         elif name == "MUnconfigure":
             pass
         elif name == "MMakeKey":
